@@ -28,6 +28,8 @@ macro_rules! dispatch {
             "C06" => $f(&checks::c06::C06, $($arg),*),
             "C07" => $f(&checks::c07::C07, $($arg),*),
             "C08" => $f(&checks::c08::C08, $($arg),*),
+            "C09" => $f(&checks::c09::C09, $($arg),*),
+            "C10" => $f(&checks::c10::C10, $($arg),*),
             "C12" => $f(&checks::c12::C12, $($arg),*),
             "C13" => $f(&checks::c13::C13, $($arg),*),
             "C14" => $f(&checks::c14::C14, $($arg),*),
